@@ -54,6 +54,10 @@ def handle : List String → Option String
   | ["c15_ms2dt_nt", xs] => some (match parseList? parseInt? xs with
       | some xs => showList (fun (p : Int × Bool) => showInt p.1 ++ (if p.2 then ":a" else ":n")) (xs.map toDatetimeNt)
       | none => "bad-op")
+  -- c15_ms2dt_nt_old <ms,...> : that path before fix D39 (finding)
+  | ["c15_ms2dt_nt_old", xs] => some (match parseList? parseInt? xs with
+      | some xs => showList (fun (p : Int × Bool) => showInt p.1 ++ (if p.2 then ":a" else ":n")) (xs.map toDatetimeNtOld)
+      | none => "bad-op")
   -- c15_ms2dt_ntp <ms,...> : the proposed repair of that path
   | ["c15_ms2dt_ntp", xs] => some (match parseList? parseInt? xs with
       | some xs => showList (fun (p : Int × Bool) => showInt p.1 ++ (if p.2 then ":a" else ":n")) (xs.map toDatetimeNtPatched)
@@ -85,7 +89,7 @@ def handle : List String → Option String
       | _ => "bad-op")
   | ["c15_createutc", which, tz, x] => some (match tz? tz, parseInt? x with
       | some tz, some x =>
-          (match (if which = "fixed" then createUtcDatetimeFixed tz x else createUtcDatetime tz x) with
+          (match (if which = "old" then createUtcDatetimeOld tz x else createUtcDatetime tz x) with
            | .ok us => showInt us | .assertionError => "AssertionError" | .attributeError => "AttributeError")
       | _, _ => "bad-op")
   | _ => none
